@@ -4,6 +4,7 @@ import Sqfs.Spec.HardLink
 import Sqfs.Model.TextParse
 import Sqfs.Model.C07Lines
 import Sqfs.Model.C07ReadHeader
+import Sqfs.Model.C12TarStream
 namespace Driver.C07
 open Sqfs.HardLink
 
@@ -276,12 +277,76 @@ def glStep (spec : Bool) : List String → String
     | _, _, _ => "bad-op"
   | _ => "bad-op"
 
+/-! ### `ms`: the content of the first member of an archive through the tar member stream
+`ms <streamhex> <want,want,...>`: `read_header` (C07's model) decodes the member's geometry, then the member stream
+(`Sqfs.IoLoops.tarGet` / `tarAdv`, C12's model of `strm_get_buffered_data` / `strm_advance_buffer`) over the memory
+istream with a 4096-byte window (= `idealStream 4096`) is drained: request `want[i mod n]` bytes, consume all
+that is handed out.  Answer: the sizes handed out (run-length coded), their sum, the FNV-1a hash of the bytes. -/
+section MemberStream
+open Sqfs.IoLoops Sqfs.IoLoops.Spec
+
+def powU64 : Nat → UInt64 → Nat → UInt64 → UInt64
+  | 0, _, _, acc => acc
+  | f + 1, b, n, acc => if n = 0 then acc else powU64 f (b * b) (n / 2) (if n % 2 = 1 then acc * b else acc)
+
+structure MsAcc where
+  sizes : List (Nat × Nat) := []      -- (size, repetitions), most recent first
+  total : Nat := 0
+  h : UInt64 := 1469598103934665603
+  calls : Nat := 0
+
+def MsAcc.push (a : MsAcc) (n : Nat) (h : UInt64) : MsAcc :=
+  { sizes := (match a.sizes with
+      | (s, k) :: r => if s = n then (s, k + 1) :: r else (n, 1) :: (s, k) :: r
+      | [] => [(n, 1)]),
+    total := a.total + n, h := h, calls := a.calls + 1 }
+
+def msCap : Nat := 70000
+
+def msLoop {σ : Type} (I : StreamI σ) (wants : List Nat) : Nat → TarStrm σ → MsAcc → String × MsAcc
+  | 0, _, a => ("cap", a)
+  | f + 1, x, a =>
+    let want := wants.getD (a.calls % wants.length) 1
+    match tarGet I x want OS.full with
+    | (.ok, w, x', _) =>
+      if w.length = 0 then ("stuck", a)
+      else
+        -- a window of zero bytes: h ← h * prime for every byte
+        let h := if x'.it.lastSparse then a.h * powU64 64 1099511628211 w.length 1 else w.foldl fnvByte a.h
+        msLoop I wants f (tarAdv I x' w.length) (a.push w.length h)
+    | (.eof, _, _, _) => ("eof", a)
+    | (.fail .corrupted, _, _, _) => ("fail corrupted", a)
+    | (.fail _, _, _, _) => ("fail other", a)
+
+def msStep : List String → String
+  | [h, ws] =>
+    match fromHex h, (ws.splitOn ",").mapM String.toNat? with
+    | some s, some wants =>
+      if wants.isEmpty ∨ wants.any (· = 0) ∨ wants.length > 16 then "bad-op" else
+      match (Sqfs.ParseTotal.readHeader s).res with
+      | .ok t rest =>
+        if t.mode &&& 0o170000 ≠ 0o100000 ∨ t.hardLink then "ms not-regular" else
+        let it := (TarIt.init (⟨s.length - rest.length, 0⟩ : Ideal)).setMember
+          ⟨t.recordSize, t.actualSize, t.sparse.map fun e => ⟨e.offset, e.count⟩⟩
+        match msLoop (idealStream 4096 s) wants msCap (tarOpen it) {} with
+        | (e, a) =>
+          "ms size=" ++ toString t.actualSize ++ " calls=" ++ toString a.calls ++ " sizes=" ++
+          (if a.sizes.isEmpty then "-" else
+            String.intercalate "," (a.sizes.reverse.map fun (p : Nat × Nat) => toString p.1 ++ "x" ++ toString p.2)) ++
+          " total=" ++ toString a.total ++ " h=" ++ hex16 a.h ++ " end=" ++ e
+      | _ => "ms hdr-fail"
+    | _, _ => "bad-op"
+  | _ => "bad-op"
+
+end MemberStream
+
 def step (line : String) : String :=
   match parserStep (words line) with
   | some r => r
   | none =>
   match words line with
   | "gl" :: toks => glStep false toks
+  | "ms" :: toks => msStep toks
   | "glspec" :: toks => glStep true toks
   | "hl" :: toks => hlStep none toks
   | "hlspec" :: toks => hlSpec toks
